@@ -105,6 +105,7 @@ pub fn eval(case: &Case) -> Verdict {
         }
         "parse" => check_parse_range(Kind::from_index(case.i[0] as usize), &case.s[0], &case.s[1]).map(|_| ()),
         "constant" => check_constant(case.i[0] as usize),
+        "scale_range" => check_scale_range(Kind::from_index(case.i[0] as usize), case.i[1], f64::from_bits(case.i[2] as u64), case.i[3] != 0),
         "now_leap" => super::c18::check_now_leap(case.i[0] as i32, case.i[1] as u32, case.i[2] as u32, case.i[3] as u32),
         "decode_int" => super::c15::check_decode_int(Kind::from_index(case.i[0] as usize), case.i[1], case.i[2] as usize).map(|_| ()),
         "ts_add_days" => c08::check_add_days(case.i[0], i2f(case.i[1]), case.i[2] != 0).map(|_| ()),
@@ -114,6 +115,35 @@ pub fn eval(case: &Case) -> Verdict {
     match r {
         Ok(()) => Verdict::Pass,
         Err(m) => Verdict::Fail(m),
+    }
+}
+
+/// `x * k` / `x / k` for an interval or a time of day: an error, or a value inside the range of
+/// the result type (year-month interval for a year-month interval, day-time interval otherwise).
+pub fn check_scale_range(kind: Kind, x: i128, k: f64, div: bool) -> Result<(), String> {
+    let r: Result<Result<(Kind, i128), sqldatetime::Error>, String> = guarded(|| match kind {
+        Kind::YM => {
+            let v = ad::ym(x as i32);
+            (if div { v.div_f64(k) } else { v.mul_f64(k) }).map(|y| (Kind::YM, y.months() as i128))
+        }
+        Kind::DT => {
+            let v = ad::dt(x as i64);
+            (if div { v.div_f64(k) } else { v.mul_f64(k) }).map(|y| (Kind::DT, y.usecs() as i128))
+        }
+        _ => {
+            let v = ad::time(x as i64);
+            (if div { v.div_f64(k) } else { v.mul_f64(k) }).map(|y| (Kind::DT, y.usecs() as i128))
+        }
+    });
+    match r.map_err(|p| format!("{} {x} {} {k:e}: {p}", kind.name(), if div { "/" } else { "*" }))? {
+        Err(_) => Ok(()),
+        Ok((rk, v)) => {
+            if ad::in_range(&Val::new(rk, v)) {
+                Ok(())
+            } else {
+                Err(format!("{}({x}).{}({k:e} [bits {:#x}]) = Ok({v}) outside the documented range of {}", kind.name(), if div { "div_f64" } else { "mul_f64" }, k.to_bits(), rk.name()))
+            }
+        }
     }
 }
 
@@ -418,8 +448,42 @@ pub fn run(ctx: &Ctx) -> (Stats, Report) {
     }
     st.section("public_constants", &mut mark);
 
+    // scaling at the limits: every pool interval x factors tuned to land just inside / outside the
+    // range (limit / x, (limit + 1) / x and their bit neighbours, both signs, mul and div): whatever is
+    // returned must be inside the range
+    for which in [0u8, 1, 2] {
+        let kind = [Kind::YM, Kind::DT, Kind::Time][which as usize];
+        let xs: Vec<i128> = match which {
+            0 => crate::pools::ym_pool(seed, if ctx.thorough { 1200 } else { 250 }),
+            1 => crate::pools::dt_pool(seed, if ctx.thorough { 1200 } else { 250 }),
+            _ => crate::pools::time_pool(seed, if ctx.thorough { 900 } else { 150 }),
+        };
+        let lim = if which == 0 { YM_MAX } else { DT_MAX };
+        let xref = &xs;
+        let s = par_sweep(xs.len() as u64, 16, |range, st| {
+            for xi in range {
+                let x = xref[xi as usize];
+                let mut fs = strat::edge_seeking(x, lim);
+                fs.extend(strat::edge_seeking(x, lim + 1));
+                fs.extend(strat::edge_seeking(x, lim - 1));
+                for f in fs {
+                    for div in [false, true] {
+                        st.evaluations += 1;
+                        st.nontrivial_enum += 1;
+                        if let Err(m) = check_scale_range(kind, x, f, div) {
+                            st.fail(xi, Case::new(P, "scale_range", vec![kind.index() as i128, x, f.to_bits() as i128, div as i128], vec![]), m);
+                            return;
+                        }
+                    }
+                }
+            }
+        });
+        st.merge(s);
+    }
+    st.section("scaling_at_the_limits", &mut mark);
+
     let rep = Report {
-        rule: format!("Operation table of {} safe public functions (constructors from fields and raw counts, conversions, the whole add/sub family, negation, mul/div by f64, 12 trunc + 12 round on three types, last_day_of_month, extract, Oracle-style operations) x cross products of boundary+seeded operand pools (first operand full pool, later operands small pools / extreme scalars incl. i32::MIN, u32::MAX, NaN, infinities), plus proptest-generated operands per unary/binary row. Oracle: every returned value (also each half of an extracted pair) satisfies the range predicate of its type (whole seconds for the Oracle-style date); rows with an exact integer model must return Ok(exact) iff the exact value is in range (no wrap, no clamp); month arithmetic must match the month model or fail. Parse: speller-built texts at, near and past the range edges must give Err or an in-range value. Deserialize: integers of every width (i8..u128, via serde's de::value deserializers) at the limits and shifted by multiples of 2^8..2^64 must give Err or exactly the in-range value they denote. The public MIN / MAX / ZERO constants of all six types equal the documented limits. Clock: now() / try_from(Time) with the injected clock inside a leap second on boundary dates and both range ends must give Err or an in-range value. Non-trivial = result within one unit period of a range edge, or an error outcome; distinct by (row, operands).", ops.len()),
+        rule: format!("Operation table of {} safe public functions (constructors from fields and raw counts, conversions, the whole add/sub family, negation, mul/div by f64, 12 trunc + 12 round on three types, last_day_of_month, extract, Oracle-style operations) x cross products of boundary+seeded operand pools (first operand full pool, later operands small pools / extreme scalars incl. i32::MIN, u32::MAX, NaN, infinities), plus proptest-generated operands per unary/binary row. Oracle: every returned value (also each half of an extracted pair) satisfies the range predicate of its type (whole seconds for the Oracle-style date); rows with an exact integer model must return Ok(exact) iff the exact value is in range (no wrap, no clamp); month arithmetic must match the month model or fail. Parse: speller-built texts at, near and past the range edges must give Err or an in-range value. Deserialize: integers of every width (i8..u128, via serde's de::value deserializers) at the limits and shifted by multiples of 2^8..2^64 must give Err or exactly the in-range value they denote. Scaling: every pool interval x factors tuned to the range limit (limit / x, (limit +- 1) / x, bit neighbours, both signs, mul and div) must give Err or an in-range value. The public MIN / MAX / ZERO constants of all six types equal the documented limits. Clock: now() / try_from(Time) with the injected clock inside a leap second on boundary dates and both range ends must give Err or an in-range value. Non-trivial = result within one unit period of a range edge, or an error outcome; distinct by (row, operands).", ops.len()),
         assumptions: vec!["operands are in-range values (built through the checked constructors); scalar arguments are unrestricted".into()],
         exhaustive: false,
         extra: Default::default(),
